@@ -232,7 +232,7 @@ def dw_table(obj, data):
         raise InstructionError(obj)
     if v<8:
         obj.mntype = "i32" if v<4 else "i64"
-        post = "f32" if v in (0,2,4,5) else "f64"
+        post = "f32" if v in (0,1,4,5) else "f64"
         su = "_s" if v%2==0 else "_u"
         obj.mnemonic = "trunc_sat_"+post+su
         # saturating truncations have no immediate
